@@ -341,8 +341,15 @@ class UserActions(object):
 
   @useraction
   def ApplyUndoActions(self, undo_actions):
+    # Undo actions state all data explicitly, including the results of trigger formulas, so
+    # applying them must not cause trigger formulas to run. Setting the columns explicitly
+    # prevents that for trigger formulas that ran originally, but not for others: e.g. changing
+    # the formula of a column does not run trigger formulas that depend on it, while restoring
+    # its previous values, row by row, would. So forget whatever the undo actions schedule.
+    pending = self._engine.get_pending_trigger_recalcs()
     for undo_action in reversed(undo_actions):
       self._do_doc_action(actions.action_from_repr(undo_action))
+    self._engine.reset_pending_trigger_recalcs(pending)
 
   @useraction
   def Calculate(self):
